@@ -4,7 +4,8 @@ package actionlint
 
 // C14 (callee side): what the checker knows about the interface of a local action or a local reusable
 // workflow is read from its YAML file by yaml.v3 into small tagged structs. The spec functions stand for
-// the content of the decoded node (govc/calls.go, (*yaml.Node).Decode): yhas(n, k) - the mapping n has the
+// the content of the decoded node (govc/calls.go, (*yaml.Node).Decode; a key that is absent leaves the field of the decode target as it
+// was): yhas(n, k) - the mapping n has the
 // key k with a non-null value; ybool(n, k) / ystr(n, k) - the value under k read as bool / string.
 // "A declared required input without default is reported iff it is not supplied": an input counts as
 // required exactly when `required: true` is written and no `default:` is present - an empty default
@@ -16,22 +17,25 @@ package actionlint
 
 //@ func (*ReusableWorkflowMetadataInput).UnmarshalYAML
 //@   props C14
-//@   ensures result == nil ==> input.Required == (ybool(n, "required") && !yhas(n, "default"))
-//@   ensures result == nil && ystr(n, "type") == "boolean" ==> istype(input.Type, "BoolType")
-//@   ensures result == nil && ystr(n, "type") == "number" ==> istype(input.Type, "NumberType")
-//@   ensures result == nil && ystr(n, "type") == "string" ==> istype(input.Type, "StringType")
-//@   ensures result == nil && ystr(n, "type") != "boolean" && ystr(n, "type") != "number" && ystr(n, "type") != "string" ==> istype(input.Type, "AnyType")
+//@   ensures result == nil ==> input.Required == (yhas(n, "required") && ybool(n, "required") && !yhas(n, "default"))
+//@   ensures result == nil && yhas(n, "type") && ystr(n, "type") == "boolean" ==> istype(input.Type, "BoolType")
+//@   ensures result == nil && yhas(n, "type") && ystr(n, "type") == "number" ==> istype(input.Type, "NumberType")
+//@   ensures result == nil && yhas(n, "type") && ystr(n, "type") == "string" ==> istype(input.Type, "StringType")
+//@   ensures result == nil && (!yhas(n, "type") || (ystr(n, "type") != "boolean" && ystr(n, "type") != "number" && ystr(n, "type") != "string")) ==> istype(input.Type, "AnyType")
 
 //@ func (*ActionMetadataInputs).UnmarshalYAML
 //@   props C14
 //@   loop "i < len(n.Content)":
-//@     at_store ActionMetadataInput.Required: value == (ybool(v, "required") && !yhas(v, "default"))
+//@     at_store ActionMetadataInput.Required: value == (yhas(v, "required") && ybool(v, "required") && !yhas(v, "default"))
 //@     at_store ActionMetadataInput.Name: value == k
 
 //@ func (*ReusableWorkflowMetadataSecrets).UnmarshalYAML
 //@   props C14
 //@   loop "i < len(n.Content)":
 //@     at_store ReusableWorkflowMetadataSecret.Name: value == k.Value
+// a secret is required exactly when its own specification says `required: true` (yaml.v3 leaves a field of the
+// decode target alone when the key is absent, so the target must be a fresh one per secret)
+//@     at_store ReusableWorkflowMetadataSecrets: value != nil && value.Required == (yhas(v, "required") && ybool(v, "required"))
 
 // The same interface computed from the AST of a reusable workflow that is itself among the linted files.
 //@ func (*LocalReusableWorkflowCache).WriteWorkflowCallEvent
